@@ -85,7 +85,7 @@ def drive(lines):
 
 PRELUDE08 = """#![allow(dead_code, unused)]
 use cstree::prelude::*;
-use cstree::syntax::{ResolvedNode, ResolvedToken, ResolvedElement, SyntaxElementRef, ResolvedElementRef};
+use cstree::syntax::{ResolvedNode, ResolvedToken, ResolvedElement, SyntaxElementRef, ResolvedElementRef, SyntaxToken};
 use cstree::green::{GreenNode, GreenToken};
 use cstree::interning::{Resolver, TokenKey};
 use std::rc::Rc;
@@ -118,6 +118,7 @@ struct GoodResolver(Arc<String>);
 impl Resolver<TokenKey> for GoodResolver { fn try_resolve(&self, _k: TokenKey) -> Option<&str> { Some(&self.0) } }
 fn send<T: Send>() {}
 fn sync<T: Sync>() {}
+fn any<T>() -> T { unimplemented!() }
 fn green() -> GreenNode { let mut b: GreenNodeBuilder<K> = GreenNodeBuilder::new(); b.start_node(K(0)); b.finish_node(); b.finish().0 }
 fn main() {}
 """
@@ -192,6 +193,24 @@ def gen_c08(seed, tier):
         probes.append(dict(desc=f"marker textgeneric {marker} 1 1 1 1", code=None,
                            generic=f"fn {{name}}<I: Resolver<TokenKey> + Send + Sync + 'static>() {{ {marker}::<{ty}>(); }}",
                            expect=True, what=f"thread-safe resolver: {marker}::<{ty}>"))
+    # traversal iterators: opaque `impl Iterator` values whose auto traits are whatever the implementation captures
+    walks = ["ancestors()", "children()", "children_with_tokens()", "siblings(cstree::traversal::Direction::Next)",
+             "siblings_with_tokens(cstree::traversal::Direction::Prev)", "descendants()", "descendants_with_tokens()", "preorder()",
+             "preorder_with_tokens()"]
+    for node_ty in ("SyntaxNode", "ResolvedNode"):
+        for w in walks:
+            for (d, ds, dy) in [("String", True, True), ("Rc<()>", False, False)]:
+                for marker, bound in (("send", "Send"), ("sync", "Sync")):
+                    probes.append(dict(desc=f"marker iter {marker} {int(ds)} {int(dy)} 1 1",
+                                       code=f"let n: &'static {node_ty}<K, {d}> = any(); fn s<T: {bound}>(_: &T) {{}} s(&n.{w});",
+                                       expect=ds and dy, what=f"{bound} for the value of {node_ty}<K, {d}>::{w}"))
+    for tok_ty in ("SyntaxToken", "ResolvedToken"):
+        for w in ["ancestors()", "siblings_with_tokens(cstree::traversal::Direction::Next)"]:
+            for (d, ds, dy) in [("String", True, True), ("Rc<()>", False, False)]:
+                for marker, bound in (("send", "Send"), ("sync", "Sync")):
+                    probes.append(dict(desc=f"marker iter {marker} {int(ds)} {int(dy)} 1 1",
+                                       code=f"let n: &'static {tok_ty}<K, {d}> = any(); fn s<T: {bound}>(_: &T) {{}} s(&n.{w});",
+                                       expect=ds and dy, what=f"{bound} for the value of {tok_ty}<K, {d}>::{w}"))
     # green elements are always sendable and shareable
     for ty in ["GreenNode", "GreenToken", "cstree::util::NodeOrToken<GreenNode, GreenToken>"]:
         for marker in ("send", "sync"):
